@@ -4,7 +4,7 @@ import numpy as np
 X_CLASSES = ["uniform", "nonuniform", "integer", "epoch", "negative", "small_step",
              "jitter", "nano", "unit", "straddle"]
 Y_CLASSES = ["gauss", "ties", "constant", "signchange", "plateaus", "tiny", "large", "positive",
-             "unit01", "near_ties", "pico"]
+             "unit01", "near_ties", "pico", "centred"]
 # The last classes of each list are "coincidence" classes: almost-uniform grids (inside the default tolerances of
 # numpy.allclose / isclose but not uniform), steps and values below 1e-8 in absolute size (absolute-tolerance traps),
 # data spanning exactly [0, 1], grids with an exact 0 in the interior, neighbouring averages that differ by a tiny
@@ -87,6 +87,10 @@ def gen_y(rng, m, cls=None):
         y = base + rng.integers(-3, 4, m) * float(rng.choice([1e-9, 4e-9, 1e-12, 2.0 ** -40]))
     elif cls == "pico":
         y = rng.normal(0, 1, m) * 1e-12
+    elif cls == "centred":
+        # mean removed: the sum cancels to rounding but not exactly (relative tests against the level go wild here)
+        y = rng.normal(0, 1, m) * float(rng.choice([1.0, 50.0])) + np.sin(np.arange(m) * 0.7) * 3
+        y = y - y.mean()
     else:
         y = rng.uniform(0.1, 10, m)
     return np.asarray(y, dtype=float), cls
